@@ -254,6 +254,9 @@ def isOptTok : Bytes → Bool
   | 45 :: c :: cs => !(c == 45 && cs.isEmpty)
   | _ => false
 
+/-- a host that ssh reads as the destination, not as an option (domain of `argv_effective`) -/
+def hostOk (h : Bytes) : Bool := !isOptTok h && h != b!"--"
+
 def step (e : Eff) (t : Bytes) : Eff :=
   if e.inCmd then { e with cmd := e.cmd ++ [t] }
   else match e.pending with
